@@ -479,6 +479,11 @@ def install(I):
             x = v.tree
             ok = core.is_num(x)
             is_str = Val.is_VStr(x)
+            if st.pure:
+                # specification context: one total value (no exception paths, no forks), as for int()
+                pv0 = I.ufunc("str_float_value", core.I, core.R)(Val.s(x))
+                yield SV(REAL, z3.If(is_str, pv0, core.num_of(x))), st
+                return
             for _, s in I.partial(st, z3.Or(ok, is_str), "TypeError", None):
                 if I.feasible(s, is_str):
                     sv = s.assume(is_str)
